@@ -216,6 +216,18 @@ def run(ctx):
   done = {}
   for name, d in plan:
     done[name] = explore.bfs(ctx, explore.SPECS[name], d)[0]
+  # the same search from NON-initial states: the whole universe loaded, then
+  # every refused operation of every history of depth <= d2
+  if not ctx.slice:
+    d2 = 2 if ctx.quick else 3
+    for name in ("c08.g1", "c08.g2", "c08.g1v3", "c08.g2v3", "c08.g1v0",
+                 "c08.g2v0"):
+      sp = explore.SPECS[name]
+      if name[-2] == "v":
+        d2 = 1 if ctx.quick else 2
+      done[name + "@full"] = explore.bfs(
+          ctx, sp, d2, label=name + "@full",
+          prefix=universe.full_prefix(sp.version))[0]
   ctx.bound_completed = done
 
 
